@@ -1,3 +1,6 @@
 -- Root of the library: everything (models, specifications, proofs, property theorems).
 -- `lake build Mdsort` (the setup command) therefore checks every proof; a check rebuilds only `Mdsort.Props.Cxx` and the driver.
 import Mdsort.All
+import Mdsort.Model.Strptime
+import Mdsort.Spec.Rfc5322Date
+import Mdsort.Proofs.Strptime
